@@ -76,9 +76,16 @@ fn run_script(script: &Value) -> Value {
     // "dead": the first n indices belong to deleted entities, so that the handles made for them below
     // carry a dead generation (a change set goes by the index alone)
     let n_dead = script["dead"].as_u64().unwrap_or(0) as usize;
+    // "two": the indices are then taken again by new entities, and the pairs addressed to them alternate between
+    // the stale and the live handle of the index
+    let mut stale: Vec<Entity> = vec![];
     if n_dead > 0 {
         let es: Vec<Entity> = world.create_iter().take(n_dead).collect();
         let _ = world.delete_entities(&es);
+        if script["two"].as_bool().unwrap_or(false) {
+            stale = es;
+            let _again: Vec<Entity> = world.create_iter().take(n_dead).collect();
+        }
     }
     // "inexact": the iterators handed to collect / extend cannot predict their length
     let inexact = script["inexact"].as_bool().unwrap_or(false);
@@ -109,7 +116,11 @@ fn run_script(script: &Value) -> Value {
         let ents = world.entities();
         let mk = |k: usize| -> (Entity, Trail) {
             let (id, amt) = pairs[k];
-            (ents.entity(id), Trail::new(k as u32 + 1, amt))
+            let e = match stale.iter().find(|s| s.id() == id) {
+                Some(&s) if k % 2 == 0 => s,
+                _ => ents.entity(id),
+            };
+            (e, Trail::new(k as u32 + 1, amt))
         };
         let mut cs: Option<ChangeSet<Trail>> = None;
         let mut k = 0usize;
